@@ -681,6 +681,18 @@ class ExprMixin:
         h = st.deref(obj)
         m = load.find_method(h.cls[0], h.cls[1], "__eq__")
         if m is None:
+            dc = self._dataclass_eq_fields(h.cls) if h.cls[0].startswith("liquid") else None
+            if dc is not None:
+                # @dataclass (eq=True): instances of the SAME class compare as the tuples of their
+                # compared fields, in declaration order; anything else is unequal
+                ho = st.deref(other) if isinstance(other, VRef) else None
+                if not (isinstance(ho, HObj) and tuple(ho.cls) == tuple(h.cls)):
+                    return [(st, z3.BoolVal(False))]
+                if obj.addr == other.addr:
+                    return [(st, z3.BoolVal(True))]
+                if not all(f_ in h.fields and f_ in ho.fields for f_ in dc):
+                    raise Unsupported(f"dataclass comparison of {h.cls[1]} with fields missing from the heap object")
+                return self.py_eq(st, VTuple(tuple(h.fields[f_] for f_ in dc)), VTuple(tuple(ho.fields[f_] for f_ in dc)))
             return [(st, self.identical(st, obj, other))]
         mod = load.get_module(m[0])
         f = VFunc(m[2], mod, None, f"{m[1]}.__eq__", (m[0], m[1]))
@@ -691,6 +703,31 @@ class ExprMixin:
             else:
                 out.append((s, self.truth(s, r)))
         return out
+
+    def _dataclass_eq_fields(self, cls):
+        """compared fields of a @dataclass with a generated __eq__ (None if not such a class)"""
+        cdef = load.get_module(cls[0]).classes.get(cls[1])
+        if cdef is None:
+            return None
+        deco = None
+        for d in cdef.decorator_list:
+            name = ast.unparse(d.func) if isinstance(d, ast.Call) else ast.unparse(d)
+            if name.split(".")[-1] == "dataclass":
+                deco = d
+        if deco is None:
+            return None
+        if isinstance(deco, ast.Call) and any(k.arg == "eq" and isinstance(k.value, ast.Constant) and k.value.value is False for k in deco.keywords):
+            return None
+        fields = []
+        for st_ in cdef.body:
+            if isinstance(st_, ast.AnnAssign) and isinstance(st_.target, ast.Name):
+                v = st_.value
+                if isinstance(v, ast.Call) and ast.unparse(v.func).split(".")[-1] == "field" and any(k.arg == "compare" and isinstance(k.value, ast.Constant) and k.value.value is False for k in v.keywords):
+                    continue
+                if "ClassVar" in ast.unparse(st_.annotation):
+                    continue
+                fields.append(st_.target.id)
+        return fields
 
     def py_in(self, st, a, b):
         if isinstance(b, VTuple):
